@@ -283,3 +283,22 @@ Proof.
   destruct l as [|x t]; [congruence|]. intros _. unfold mean. field.
   intros H. pose proof (qlen_pos x t) as P. rewrite H in P. apply Qlt_irrefl in P. exact P.
 Qed.
+Lemma qlen_cons x t : qlen (x :: t) == qlen t + 1.
+Proof. unfold qlen. cbn [length]. rewrite Nat2Z.inj_succ, <- Z.add_1_r, inject_Z_plus. reflexivity. Qed.
+Lemma qsum_sqdev a l :
+  qsum (map (sqdev a) l) == qsum (map (fun x => x * x) l) - 2 * a * qsum l + qlen l * a * a.
+Proof.
+  induction l as [|x t IH].
+  - cbn. unfold qlen. cbn. ring.
+  - cbn [map qsum fold_right]. fold (qsum (map (sqdev a) t)). fold (qsum (map (fun x => x * x) t)). fold (qsum t).
+    rewrite IH, qlen_cons. unfold sqdev. ring.
+Qed.
+Lemma variance_mean_of_squares l : l <> [] ->
+  variance l == mean (map (fun x => x * x) l) - mean l * mean l.
+Proof.
+  destruct l as [|x t]; [congruence|]. intros _.
+  unfold variance, var_ddof. rewrite qsum_sqdev. rewrite Z.sub_0_r. fold (qlen (x :: t)).
+  unfold mean. assert (L : qlen (map (fun x0 => x0 * x0) (x :: t)) = qlen (x :: t)) by (unfold qlen; rewrite map_length; reflexivity). rewrite L.
+  pose proof (qlen_pos x t) as P.
+  field. intros H. rewrite H in P. apply Qlt_irrefl in P. exact P.
+Qed.
